@@ -41,16 +41,18 @@ Fixpoint split_last_arg (l : list bytes) : option (list bytes * bytes) :=
   end.
 
 (* specification oracle: decide_spec on the abstract record against the implementation's verdict
-   [version; signature table; event; auth event ...; verdict] *)
+   [version; signature table; event; auth event ...; verdict].
+   The events are read with the switches of the hand-written specification matrix
+   (AllowedSpec.spec_flags_of), not with the ones generated from eventversion.go. *)
 Definition prop_allowed (args : list bytes) : bytes :=
   match split_last_arg args with
   | None => bs "badargs"
   | Some (args', impl) =>
       with_case args'
         (fun so ver e al =>
-           match flags_of_version ver, spec_rules_of ver with
-           | Some f, Some sv =>
-               let a := abs so f e al in
+           match spec_flags_of ver, spec_rules_of ver with
+           | Some sf, Some sv =>
+               let a := abs so sf e al in
                let want := decide_spec sv a in
                let got := bytes_eqb impl (bs "ok") in
                if negb (ai_provider_ok a) then bs "ok"   (* NewAuthEvents failed: Allowed was not reached *)
@@ -62,5 +64,11 @@ Definition prop_allowed (args : list bytes) : bytes :=
         (bs "badargs")
   end.
 
+(* the model of Allowed when the UserIDForSender callback answers (nil, nil) instead of an error
+   for a sender it cannot resolve *)
+Definition run_allowed_nilq (args : list bytes) : bytes :=
+  with_case args (fun so ver e al => verdict_bytes (allowed_model_nilq so ver e al)) (bs "badargs").
+
 Definition ops_C07 : list (bytes * (list bytes -> bytes)) :=
-  [ (bs "C07.allowed", run_allowed); (bs "C07.prop.allowed", prop_allowed) ].
+  [ (bs "C07.allowed", run_allowed); (bs "C07.allowed_nilq", run_allowed_nilq);
+    (bs "C07.prop.allowed", prop_allowed) ].
